@@ -18,6 +18,8 @@ from sim import glob as G
 from sim import rng as R
 from sim import sched
 from sim.result import Result
+from sim.simfs import Fault, SimFS
+from sim.simfs import SimCrash as FsCrash
 
 ID = "C20"
 CONFIGS = ("nofault", "fault")
@@ -115,7 +117,7 @@ def _gen_atomic(o, nparts, has_perf, cfg):
         if k == "na_estimate":
             op.update(what=o.choice(("spelling", "voices", "key")))
     if cfg == "fault" and k in ("save_xml", "save_midi", "perf_midi") and op.get("route") != "str" and o.random() < 0.6:
-        op["fault"] = {"kind": o.choice(("write_error", "write_error", "close_error", "crash")), "at": o.choice((0, 1, 2, 3, 5, 8, 20)), "errno": o.choice((28, 5))}
+        op["fault"] = {"kind": o.choice(("write_error", "write_error", "close_error", "crash") + (("open_error",) if op.get("route") == "path" else ())), "at": o.choice((0, 1, 2, 3, 5, 8, 20)), "errno": o.choice((28, 5))}
     return op
 
 
@@ -154,7 +156,7 @@ def generate(seed, tier, cfg):
         "perf_seed": st.workload.randrange(1 << 30) if has_perf else None,
         "programs": programs,
         "schedule": sched.gen_schedule(st.schedule, nclients, nsteps, policy),
-        "knobs": {"policy": policy, "reclimit": k.choice((1000, 1500, 3000)), "profile": profile},
+        "knobs": {"policy": policy, "reclimit": k.choice((1000, 1500, 3000)), "profile": profile, "chunk": k.choice((0, 0, 7, 16, 512))},
     }
 
 
@@ -256,6 +258,8 @@ class World(object):
         if case.get("perf_seed") is not None:
             self.perf, self.align = make_perf(self.asc, case["perf_seed"])
         self.res = res
+        self.fs = simfs if simfs is not None else SimFS(chunk=case["knobs"].get("chunk", 0))
+        self.path_counter = 0
         self.snapper = FP.Snapshotter()
         # note arrays "taken earlier" and passed to array-level entry points; part of the world snapshot
         self.arrays = [p.note_array(include_pitch_spelling=True, include_staff=True) for p in self.score.parts]
@@ -294,25 +298,44 @@ def run_atomic(w, op, res, sink=None):
 
     k = op["k"]
     tgt = w.target(op["target"]) if "target" in op else None
+    fired0 = dict(w.fs.fired)
+
+    class PathOut(object):
+        """export target given as a path on the simulated file system; the library opens, writes and
+        closes it itself, under the fault of this operation (F1 open, F2 write, F3 close, F4 crash)"""
+
+        def __init__(self):
+            w.path_counter += 1
+            self.path = "/simfs/c20-%d.out" % w.path_counter
+            f = op.get("fault")
+            kinds = {"write_error": "F2", "close_error": "F3", "crash": "F4", "open_error": "F1"}
+            w.fs.faults = [Fault(kinds[f["kind"]], self.path, f["at"], f["errno"])] if f else []
+            self.before = dict(w.fs.fired)
+
+        @property
+        def data(self):
+            return w.fs.get(self.path) or b""
 
     def out_for(route):
         if route == "filelike":
             return FaultyOut(op.get("fault"), res)
         if route == "path":
-            # path route goes through the file-like seam as well until SimFS is mounted in this world
-            return FaultyOut(op.get("fault"), res)
+            return PathOut()
         return None
 
     try:
         if k == "save_xml":
             o = out_for(op["route"])
-            r = partitura.save_musicxml(tgt, o)
+            r = partitura.save_musicxml(tgt, o.path if isinstance(o, PathOut) else o)
             return bytes(o.data) if o is not None else r
         if k == "save_midi":
             o = out_for(op["route"])
-            buf = io.BufferedWriter(o, buffer_size=64)
             from partitura.io.exportmidi import save_score_midi
 
+            if isinstance(o, PathOut):
+                save_score_midi(tgt, o.path, part_voice_assign_mode=op["mode"], anacrusis_behavior=op["anacrusis"])
+                return bytes(o.data)
+            buf = io.BufferedWriter(o, buffer_size=64)
             save_score_midi(tgt, buf, part_voice_assign_mode=op["mode"], anacrusis_behavior=op["anacrusis"])
             return _finish(buf, o)
         if k == "note_array":
@@ -369,9 +392,12 @@ def run_atomic(w, op, res, sink=None):
             return [n] + [tgt[i].id for i in range(n)] + [tgt[-1].id]
         if k == "perf_midi":
             o = out_for(op["route"])
-            buf = io.BufferedWriter(o, buffer_size=64)
             from partitura.io.exportmidi import save_performance_midi
 
+            if isinstance(o, PathOut):
+                save_performance_midi(tgt, o.path)
+                return bytes(o.data)
+            buf = io.BufferedWriter(o, buffer_size=64)
             save_performance_midi(tgt, buf)
             return _finish(buf, o)
         if k == "perf_array":
@@ -409,10 +435,10 @@ def run_atomic(w, op, res, sink=None):
         if k == "save_match":
             from partitura.io.exportmatch import matchfile_from_alignment
 
-            mf = matchfile_from_alignment(w.align, w.perf.performedparts[0], w.score.parts[0], assume_unfolded=True)
+            mf = matchfile_from_alignment(w.align, w.perf.performedparts[0], w.score.parts[0], assume_part_unfolded=True)
             return [str(l.matchline) for l in mf.lines]
         raise ValueError("unknown op %r" % (k,))
-    except SimCrash:
+    except (SimCrash, FsCrash):
         return ("crashed", "SimCrash")
     except Exception as e:
         import traceback
@@ -420,7 +446,13 @@ def run_atomic(w, op, res, sink=None):
         tb = traceback.extract_tb(e.__traceback__)
         if not any("/partitura/" in f.filename or "/mido/" in f.filename or "/lxml" in f.filename or "/numpy/" in f.filename for f in tb):
             raise
+        res.count("raised:%s:%s" % (k, type(e).__name__))
         return ("raised", type(e).__name__)
+    finally:
+        w.fs.faults = []
+        for kk, v in w.fs.fired.items():
+            if v != fired0.get(kk, 0):
+                res.fault(kk, v - fired0.get(kk, 0))
 
 
 def _finish(buf, o):
@@ -489,7 +521,13 @@ def execute(case, keep_log=False):
 
 
 def _execute(case, res):
-    w = World(case, res)
+    fs = SimFS(chunk=case["knobs"].get("chunk", 0))
+    with fs:
+        return _execute_in(case, res, fs)
+
+
+def _execute_in(case, res, fs):
+    w = World(case, res, simfs=fs)
     parts = w.score.parts
     res.log.add("world", "init", {"parts": [p.id for p in parts], "perf": w.perf is not None, "clients": len(case["programs"]), "profile": case["knobs"].get("profile")})
     g0 = G.fingerprint()
@@ -525,7 +563,7 @@ def _execute(case, res):
         segs = seg_state() if segs is None else segs
         key = opkey(op) + repr(segs)
         if key not in state["fresh"]:
-            fw = World(case, res)
+            fw = World(case, res, simfs=fs)
             for has, p in zip(segs, fw.score.parts):
                 if has:
                     w.S.add_segments(p)
